@@ -4,7 +4,10 @@ import SfwModel.Model.Env
 import SfwModel.Model.Match
 import SfwModel.Model.Sha256
 import SfwModel.Model.Store
+import SfwModel.Model.PathGuard
+import SfwModel.Model.Sandbox
 import SfwModel.Props.C05
 import SfwModel.Props.C08
 import SfwModel.Props.C15
 import SfwModel.Props.C19
+import SfwModel.Props.C20
